@@ -423,3 +423,57 @@ def nested_receiver_program(rng):
     if r.chance(8):
         L += ["class NStat { #[static] fn s() { var f = || self; return f(); } }", "print(NStat.s());"]
     return "\n".join(L) + "\n"
+
+
+def ctor_paths_program(rng):
+    """explicit constructors left along every path - falling off the end, a bare `return;` at the top, inside an if, a loop,
+    a block, a try block that has a finally (alone, nested, after a complete inner try statement), after `super.new(..)` -
+    chosen by the arguments: whichever way it is left, the call evaluates to the new instance"""
+    r = rng
+    paths = []
+
+    def path(i):
+        k = r.below(9)
+        if k == 0:
+            return "if p == %d { return; }" % i
+        if k == 1:
+            return "if p == %d { self.log.push(\"ret%d\"); { var tmp = %d; if tmp == %d { return; } } }" % (i, i, i, i)
+        if k == 2:
+            return "for q in 0..3 { if p == %d && q == 1 { self.log.push(\"loop%d\"); return; } }" % (i, i)
+        if k == 3:
+            return "try { if p == %d { self.log.push(\"try%d\"); return; } } finally { self.log.push(\"fin%d\"); }" % (i, i, i)
+        if k == 4:
+            return "try { try { if p == %d { return; } } finally { self.log.push(\"inner%d\"); } } finally { self.log.push(\"outer%d\"); }" % (i, i, i) if False else \
+                   "try { self.log.push(\"a%d\"); if p == %d { var w = [p]; return; } self.log.push(\"b%d\"); } finally { self.log.push(\"fin%d\"); }" % (i, i, i, i)
+        if k == 5:
+            return "try { try { [][p]; } catch e { self.log.push(\"c%d\"); } if p == %d { return; } } finally { self.log.push(\"fin%d\"); }" % (i, i, i)
+        if k == 6:
+            return "var w%d = 0; while w%d < 2 { w%d += 1; if p == %d { return; } }" % (i, i, i, i)
+        if k == 7:
+            return "try { if p == %d { throw \"t%d\"; } } catch e { self.log.push(e); } finally { self.log.push(\"fin%d\"); }" % (i, i, i)
+        return "if p == %d { self.log.push(|| self); return; }" % i
+
+    n = r.range(3, 6)
+    L = ["class CP {", "    #[constructor]", "    fn new(self, p) {", "        self.p = p; self.log = [];"]
+    for i in range(n):
+        L.append("        " + path(i))
+    L += ["        self.log.push(\"end\");", "    }", "    fn show(self) { return [self.p, self.log.len()]; }", "}",
+          "#[derive(CP)]", "class CD {", "    #[constructor]", "    fn make(self, p) {", "        %s" % r.choice(["super.new(p);", "try { super.new(p); } finally { self.post = true; }", "super.new(p); if p == 1 { return; }"]),
+          "        " + path(n), "        self.derived = true;", "    }", "}"]
+    for i in range(n + 2):
+        L.append("{ var o = CP.new(%d); print(type(o)); try { print(o.show()); print(o.log.len()); } catch e { print(type(e)); print(e.context); } }" % i)
+        L.append("{ var d = CD.make(%d); print(type(d)); try { print(d.show()); print(d.derives(CP)); } catch e { print(type(e)); print(e.context); } }" % i)
+    L.append("var via = CP.new; try { print(type(via(0))); } catch e { print(type(e)); print(e.context); }")
+    # statics and constructors taken off the class as values: they stay bound to the class they were taken from
+    L += ["class SV { #[constructor] fn new(self, a) { self.a = a; } #[static] fn mk(a) { return Self.new(a); } #[static] fn me() { return Self; }",
+          "    #[static] fn twice(a) { return [Self.mk(a).a, Self.me() == SV]; } fn inst(self) { return self.a; } }",
+          "#[derive(SV)] class SW { #[constructor] fn new(self, a) { super.new(a); self.w = true; } #[static] fn mk(a) { return Self.new([a]); } #[static] fn me() { return Self; } }",
+          "#[constructor(new)] class Hold {}", "var h = Hold.new();"]
+    uses = ["var f1 = SV.mk; print(type(f1(1))); print(f1(2).a);", "var f2 = SW.mk; print(type(f2(1))); print(f2(2).a);",
+            "print([1, 2].iter().map(SV.mk).collect().len()); print([3].iter().map(SW.mk).collect()[0].a);",
+            "h.go = SV.me; print(h.go() == SV); h.go2 = SW.me; print(h.go2() == SW);", "var c1 = SV.new; var made = c1(7); print(type(made)); print(made.inst());",
+            "var c2 = SW.new; var made2 = c2(8); print(type(made2)); print(made2.w);", "var t = SV.twice; print(t(5));", "print((SV.me)() == SV); print((SW.mk)(0).a);",
+            "fn apply(f, x) { return f(x); } print(type(apply(SV.mk, 1))); print(type(apply(SW.new, 2)));"]
+    for u in r.sample(uses, r.range(3, len(uses))):
+        L.append("try { %s } catch e { print(type(e)); print(e.context); }" % u)
+    return "\n".join(L) + "\n"
